@@ -7,7 +7,7 @@ import fds_gen as fg
 
 MLS = ("fds",)
 HARNESSES = ("fds_h",)
-LEVEL = "proof-partial"
+LEVEL = "proof"
 THEOREMS = ["C15_conservation", "C15_closed_exactly_once", "C15_received_from_sent", "C15_order_and_count",
             "C15_only_negotiated", "C15_full", "C15_fuel_suffices"]
 
